@@ -326,7 +326,7 @@ class IIFE:
     def apply(self, text, report, where):
         n = 0
         while True:
-            m = re.search(r"\[&\]\s*\{", text)
+            m = re.search(r"\[&[^\]]*\]\s*\{", text)
             if not m:
                 break
             if n >= len(self.types):
@@ -346,3 +346,53 @@ class IIFE:
             raise ExtractionDrift("%d immediately-invoked lambdas found in %s, %d declared" % (n, where, len(self.types)))
         report.append({"where": where, "rule": self.pat, "fires": n, "expected": str(n), "note": self.note})
         return text
+
+
+
+class StripPP:
+    """Remove `#if <cond> ... #endif` blocks (with nesting; an #else keeps the other branch) whose
+    condition matches `cond` -- used for CELERITAS_DEBUG (bound to 0) and host-logging blocks."""
+
+    def __init__(self, cond, keep_else=True, fires="+", note=""):
+        self.cond = cond
+        self.keep_else = keep_else
+        self.fires = fires
+        self.note = note or ("preprocessor block `#if %s` dropped" % cond)
+        self.pat = "strip-pp[%s]" % cond
+
+    def apply(self, text, report, where):
+        lines = text.split("\n")
+        out = []
+        n = 0
+        i = 0
+        while i < len(lines):
+            ln = lines[i]
+            if re.match(r"\s*#\s*if\s+" + self.cond + r"\s*$", ln):
+                n += 1
+                depth = 1
+                i += 1
+                in_else = False
+                while i < len(lines) and depth > 0:
+                    l2 = lines[i]
+                    if re.match(r"\s*#\s*if", l2):
+                        depth += 1
+                    elif re.match(r"\s*#\s*endif", l2):
+                        depth -= 1
+                        if depth == 0:
+                            break
+                    elif depth == 1 and re.match(r"\s*#\s*else", l2):
+                        in_else = True
+                        i += 1
+                        continue
+                    if in_else and self.keep_else:
+                        out.append(l2)
+                    i += 1
+                i += 1
+                continue
+            out.append(ln)
+            i += 1
+        ok = (self.fires == "*") or (self.fires == "+" and n >= 1) or (isinstance(self.fires, int) and n == self.fires)
+        report.append({"where": where, "rule": self.pat, "fires": n, "expected": str(self.fires), "note": self.note})
+        if not ok:
+            raise ExtractionDrift("%s fired %d times in %s, expected %s" % (self.pat, n, where, self.fires))
+        return "\n".join(out)
